@@ -165,7 +165,9 @@ class ParserFactory:
             p[0] = AstNamespace(
                 self.path, p.lineno(1), p.lexpos(1), p[2], doc)
         else:
-            raise ValueError('Expected namespace keyword')
+            # Some other keyword followed by an identifier (e.g. "doc x").
+            msg = "Expected 'namespace' keyword, got %s." % repr(p[1]).lstrip('u')
+            self.errors.append((msg, p.lineno(1), self.path))
 
     def p_import(self, p):
         'import : IMPORT ID NL'
